@@ -27,7 +27,7 @@ from indi.transport import Buffer  # noqa: E402
 # ------------------------------------------------------------------ message corpus (real objects)
 def corpus() -> List[Any]:
     T = "2024-01-01T00:00:00"
-    tx = ["plain", "a > b", "x < y & z", 'say "hi"', "it's", "zażółć ☃", "\U0001f52d tele", "in  ner\tws", "l1\nl2", "]]> <!-- x -->"]
+    tx = ["plain", "a > b", "x < y & z", 'say "hi"', "it's", '8" newtonian', "5' 3\" tall", "zażółć ☃", "\U0001f52d tele", "in  ner\tws", "l1\nl2", "]]> <!-- x -->"]
     out: List[Any] = [
         M.GetProperties(version="1.7"),
         M.GetProperties(version="1.7", device="CAM"),
